@@ -28,7 +28,15 @@ MemArgs(fn) ==
     [] fn = "aescbcaead.Seal" -> <<"dst", "nonce", "plaintext", "additionalData", "key">>
     [] fn = "aescbcaead.Open" -> <<"dst", "nonce", "ciphertext", "additionalData", "key">>
     [] fn = "ParseKey" -> <<"raw">>
+(* The explicit destination of an AEAD call: "spare" is dst[len(dst) : len(dst)+needed], the room the    *)
+(* result needs; "beyond" is the rest of dst's capacity.                                                *)
 Regions(fn) == {<<MemArgs(fn)[j], w>> : j \in 1..Len(MemArgs(fn)), w \in {"len", "spare"}}
+               \cup (IF fn \in AeadFns THEN {<<"dst", "beyond">>} ELSE {})
+(* bytes the result of an aescbcaead call may occupy behind dst: ciphertext and tag (Seal), at most the  *)
+(* padded plaintext (Open)                                                                              *)
+DstNeeded(cf) ==
+  IF cf.fn = "aescbcaead.Seal" THEN Pad16(cf.len) + Row(cf.alg).tag
+  ELSE IF cf.fn = "aescbcaead.Open" THEN Pad16(cf.len) ELSE 0
 
 (* Memory a call RETURNED to its caller is the caller's from then on: the      *)
 (* slices returned by earlier calls form the region "result" (in-length bytes  *)
@@ -36,8 +44,9 @@ Regions(fn) == {<<MemArgs(fn)[j], w>> : j \in 1..Len(MemArgs(fn)), w \in {"len",
 ResultRegions == {<<"result", "len">>, <<"result", "spare">>}
 CallerMemory(fn) == Regions(fn) \cup ResultRegions
 
-(* THE LAW: the only memory a call may write is the spare capacity of the      *)
-(* destination an AEAD caller passes explicitly - never an argument, never a   *)
+(* THE LAW: the only memory a call may write is the part of the spare capacity *)
+(* of the destination an AEAD caller passes explicitly that the result needs   *)
+(* (not dst's own bytes, not the capacity beyond) - never an argument, never a   *)
 (* result handed out by an earlier call (whether or not it comes back as an    *)
 (* argument).                                                                  *)
 MayWrite(cf) == IF cf.fn \in AeadFns THEN {<<"dst", "spare">>} ELSE {}
@@ -161,7 +170,7 @@ CardOfMemGroup(g) == Cardinality(MemGroupConfigs(g))
 NumConfigsOf(GS) == MapThenSumSet(CardOfMemGroup, GS)
 DescribeCf(cf) ==
   LET n == Len(MemArgs(cf.fn)) IN
-  cf @@ [args |-> MemArgs(cf.fn), spares |-> SpareVec(cf.sv, n),
+  cf @@ [args |-> MemArgs(cf.fn), spares |-> SpareVec(cf.sv, n), dstNeeded |-> DstNeeded(cf),
          fam |-> (IF cf.alg \in Names(AllRows) THEN Row(cf.alg).fam ELSE "none"),
          gKeyBits |-> (IF cf.alg \in Names(AllRows) THEN GoodBits(Row(cf.alg)) ELSE 0),
          gNonce |-> (IF cf.alg \in Names(AllRows) THEN Row(cf.alg).nonce ELSE 0),
